@@ -440,11 +440,11 @@ func vfInviteDescribe(ctx context.Context, db *WeshOrbitDB, id int, gtype string
 	ev["ncand"] = len(cands)
 	fullMeta, fullHdr, opMeta, opHdr, opPay := 0, 0, 0, 0, 0
 	for _, e := range s.metas {
-		if _, _, err := openGroupEnvelope(g, e); err == nil {
+		if _, _, err := vfOpenGroupEnvelope(g, e); err == nil {
 			fullMeta++
 		}
 		for _, c := range cands {
-			if _, _, err := openGroupEnvelope(c, e); err == nil {
+			if _, _, err := vfOpenGroupEnvelope(c, e); err == nil {
 				opMeta++
 			}
 		}
